@@ -695,8 +695,10 @@ def h_ntp(sx, method):
 # ---------------------------------------------------------------------------
 # scenario: MP4 parser on a fixture with a corrupted box size / truncated input
 
-MP4_FILES = ['moov', 'enc-moov', 'tseg', 'aseg', 'ebuttd', 'emsg-boxes']
-MP4_FILES_T = MP4_FILES + ['hevc-moov', 'eac3-moov', 'webvtt', 'moov-v1', 'tseg-trun-all', 'enc-seg']
+# (the 48 KB audio segments are left out of the size / cut modes: a symbolic cursor over the
+# repository's bucketed BufferedReader forks per bucket and ran past the 600 s instance budget)
+MP4_FILES = ['moov', 'enc-moov', 'tseg', 'ebuttd', 'emsg-boxes']
+MP4_FILES_T = MP4_FILES + ['hevc-moov', 'eac3-moov', 'webvtt', 'moov-v1', 'tseg-trun-all']
 
 
 def _flat_boxes(name):
@@ -789,6 +791,7 @@ def scen_mp4(G, name, box, lazy, mode):
         if cut is not None:
             buf = buf[:cut]
         core.ctx().env['range_limit'] = 20000
+        core.ctx().env['tick_limit'] = 3000
         core.ctx().env['utf8_nondet'] = True
 
     def run():
